@@ -1046,36 +1046,31 @@ func gen(c *core.Ctx) error {
 	c.Assume("allocation is measured as runtime.MemStats.TotalAlloc deltas (whole process; background allocation is negligible because the harness is single-threaded apart from the guarded call)")
 	c.Assume("the external ClassAd expression parser is an oracle: the index of the expression it refused is taken from the error and handed to the model")
 	c.PerFile = 330
-	genMessageLevel(c)
-	if !aborted {
-		genQuotedValues(c)
+	// VH_C13_ONLY=name[,name...] (development aid): run only the named generator families
+	only := os.Getenv("VH_C13_ONLY")
+	want := func(name string) bool {
+		if aborted {
+			return false
+		}
+		if only == "" {
+			return true
+		}
+		for _, x := range strings.Split(only, ",") {
+			if x == name {
+				return true
+			}
+		}
+		return false
 	}
-	if !aborted {
-		genAuditCases(c)
-	}
-	if !aborted {
-		genRawBody(c)
-	}
-	if !aborted {
-		genEmptyFrameRuns(c)
-	}
-	if !aborted {
-		genWire(c)
-	}
-	if !aborted {
-		genText(c)
-	}
-	if !aborted {
-		genSinful(c)
-	}
-	if !aborted {
-		genVersion(c)
-	}
-	if !aborted {
-		genHS(c)
-	}
-	if !aborted {
-		genSci(c)
+	for _, g := range []struct {
+		name string
+		f    func(*core.Ctx)
+	}{{"msg", genMessageLevel}, {"quoted", genQuotedValues}, {"audit", genAuditCases}, {"rawbody", genRawBody},
+		{"emptyframes", genEmptyFrameRuns}, {"wire", genWire}, {"text", genText}, {"sinful", genSinful},
+		{"version", genVersion}, {"addr", genAddr}, {"hs", genHS}, {"sci", genSci}} {
+		if want(g.name) {
+			g.f(c)
+		}
 	}
 	c.Note(fmt.Sprintf("deepest call stack seen at a mock-stream ReadFrame: %d frames (oracle bound 64)", maxMsgDepthSeen))
 	c.Note(fmt.Sprintf("deepest call stack seen at a connection read: %d frames (oracle bound 64)", maxDepthSeen))
